@@ -1,7 +1,10 @@
 package main
 
 import (
+	"encoding/json"
 	"fmt"
+	"os"
+	"path/filepath"
 	"sort"
 	"strings"
 
@@ -155,5 +158,21 @@ type directedCase struct {
 	t  *chaingen.Tree
 }
 
-// directed: minimised earlier failures, run first.
-func directed() []directedCase { return nil }
+// directed: minimised earlier failures (/verif/corpus/C06/*.json), run first.
+func directed() (out []directedCase) {
+	files, _ := filepath.Glob("/verif/corpus/C06/*.json")
+	sort.Strings(files)
+	for _, f := range files {
+		var c struct {
+			Case Case `json:"case"`
+		}
+		b, err := os.ReadFile(f)
+		if err != nil || json.Unmarshal(b, &c) != nil {
+			continue
+		}
+		if t := c.Case.tree(); t != nil {
+			out = append(out, directedCase{c.Case, t})
+		}
+	}
+	return
+}
